@@ -37,16 +37,16 @@ def plan(tier, seed, rng, scale):
     descs = []
     for k in G.ALL_K:
         descs.append({'kind': 'rt', 'k': k, 'rc': rng.random() < 0.7, 'seed': rng.getrandbits(32), 'size': 'small'})
-    n = int((60 if tier == 'quick' else 1500) * scale)
+    n = int((200 if tier == 'quick' else 2000) * scale)
     for i in range(n):
         descs.append({'kind': 'rt', 'k': rng.choice(G.ALL_K), 'rc': rng.random() < 0.7, 'seed': rng.getrandbits(32),
                       'size': 'big' if i % 15 == 0 else 'small'})
-    for i in range(int((40 if tier == 'quick' else 800) * scale)):
+    for i in range(int((120 if tier == 'quick' else 1000) * scale)):
         descs.append({'kind': 'cli', 'seed': rng.getrandbits(32)})
     for k in NARROW_K:
         for rcmode in (True, False):
             descs.append({'kind': 'narrow', 'k': k, 'rc': rcmode, 'seed': rng.getrandbits(32)})
-    for i in range(int((60 if tier == 'quick' else 1500) * scale)):
+    for i in range(int((200 if tier == 'quick' else 2000) * scale)):
         descs.append({'kind': 'narrow', 'k': rng.choice(NARROW_K), 'rc': rng.random() < 0.6, 'seed': rng.getrandbits(32)})
     for i, d in enumerate(descs):
         d['chk'] = d['kind'] == 'narrow' and i % 4 == 0
